@@ -1,1 +1,3 @@
+pub mod c08;
 pub mod c09;
+pub mod c10;
